@@ -1,0 +1,118 @@
+//go:build verif
+
+package s2
+
+import (
+	"encoding/json"
+	"os"
+	"sort"
+	"sync"
+	"sync/atomic"
+)
+
+// Recording of ShapeIndex updates for trace validation (verification harness
+// in /verif). Nothing happens unless the environment variable
+// VERIF_INDEX_TRACE names a file: then every application of pending updates,
+// by whichever code runs in this process (for instance the package's own
+// tests), is logged as two events, taken while the index mutex is held:
+// "begin" just before applyUpdatesInternal and "end" just after the status
+// became fresh. Each event carries the bookkeeping of the index projected on
+// shape ids. Indexes with more than verifTraceMaxIDs shape ids are counted
+// but not logged.
+
+const verifTraceMaxIDs = 48
+
+type verifIndexTracer struct {
+	mu      sync.Mutex
+	f       *os.File
+	ids     map[*ShapeIndex]int
+	n       int
+	skipped int
+}
+
+type verifTraceEvent struct {
+	Ix   int     `json:"ix"`
+	Ev   string  `json:"ev"`
+	Next int32   `json:"next"`
+	Pend int32   `json:"pend"`
+	Frsh bool    `json:"fresh"`
+	Live []int32 `json:"live"` // ids of the shapes held that have an edge or an interior covering the tracker origin
+	Hid  []int32 `json:"hid"`  // ids of the other shapes held (they never appear in the cell map)
+	Idx  []int32 `json:"idx"`  // ids found in the cell map
+	NRem int     `json:"nrem"` // queued removals
+}
+
+func init() {
+	path := os.Getenv("VERIF_INDEX_TRACE")
+	if path == "" {
+		return
+	}
+	f, err := os.OpenFile(path, os.O_CREATE|os.O_WRONLY|os.O_APPEND, 0o644)
+	if err != nil {
+		panic(err)
+	}
+	t := &verifIndexTracer{f: f, ids: map[*ShapeIndex]int{}}
+	VerifSchedHook = t.hook
+}
+
+func (t *verifIndexTracer) hook(s *ShapeIndex, label string) {
+	if label != "locked" && label != "unlock" {
+		return
+	}
+	// the caller holds s.mu: the fields of s are stable
+	if s.nextID > verifTraceMaxIDs {
+		t.mu.Lock()
+		t.skipped++
+		t.mu.Unlock()
+		return
+	}
+	e := verifTraceEvent{Ev: "begin", Next: s.nextID, Pend: s.pendingAdditionsPos,
+		Frsh: atomic.LoadInt32(&s.status) == fresh, NRem: len(s.pendingRemovals), Live: []int32{}, Hid: []int32{}, Idx: []int32{}}
+	if label == "unlock" {
+		e.Ev = "end"
+	}
+	ok := true
+	func() {
+		defer func() {
+			if recover() != nil {
+				ok = false
+			}
+		}()
+		for id, sh := range s.shapes {
+			if sh == nil {
+				continue
+			}
+			if sh.NumEdges() > 0 || (sh.Dimension() == 2 && sh.ReferencePoint().Contained) {
+				e.Live = append(e.Live, id)
+			} else {
+				e.Hid = append(e.Hid, id)
+			}
+		}
+	}()
+	if !ok {
+		return
+	}
+	seen := map[int32]bool{}
+	for _, c := range s.cellMap {
+		for _, cs := range c.shapes {
+			if !seen[cs.shapeID] {
+				seen[cs.shapeID] = true
+				e.Idx = append(e.Idx, cs.shapeID)
+			}
+		}
+	}
+	sort.Slice(e.Live, func(i, j int) bool { return e.Live[i] < e.Live[j] })
+	sort.Slice(e.Idx, func(i, j int) bool { return e.Idx[i] < e.Idx[j] })
+	sort.Slice(e.Hid, func(i, j int) bool { return e.Hid[i] < e.Hid[j] })
+	t.mu.Lock()
+	defer t.mu.Unlock()
+	ix, found := t.ids[s]
+	if !found {
+		t.n++
+		ix = t.n
+		t.ids[s] = ix
+	}
+	e.Ix = ix
+	b, _ := json.Marshal(e)
+	t.f.Write(append(b, '\n'))
+}
